@@ -58,7 +58,10 @@ class Exact:
         if n_dom > n_known:
             raise Undetermined(f'the site is also guarded by {n_dom - n_known} test(s) that are not a known predicate of the text (known: has-scheme and the like)')
         for (name, pol, _root) in sites.lifted_guards(self.ctx, b, bi):
-            g = lang.predicate_dfa(name, False)
+            if name.startswith(sites.CONV_GUARD):
+                g = self.fn(name[len(sites.CONV_GUARD):])[0]        # "that conversion yields a value on this text"
+            else:
+                g = lang.predicate_dfa(name, False)
             L = intersect(L, g) if pol else difference(L, g)
         return L
 
